@@ -33,10 +33,11 @@ FL = {
     "alias": "for example aliasing or mutation: the function now returns (or stores) a reference to its input or to shared internal state instead of a copy, mutates an argument or a module-level constant in place, or two results share a buffer - so that the defect only shows when the caller later modifies one of the objects or calls the function again",
     "refactor": "for example a performance-motivated rewrite that LOOKS semantics-preserving: a loop turned into vectorised numpy (broadcasting, argsort / unique / cumsum / searchsorted / boolean masks), an early exit or short-circuit added, two loops fused or their order swapped, a set replaced by a list or dict (or the reverse), a comparison simplified - and which is subtly wrong only for ties, duplicates, empty or single-element inputs, non-square shapes, a particular ordering, or unsorted input",
     "free": "of your own choosing - be inventive: read the code the property is anchored in closely and look for the least-tested corner of it (an option nobody sets, a branch only one generator or one tokenizer element takes, an interaction between two features, a platform / dtype / ordering assumption); avoid the first idea that comes to mind",
+    "helper": "for example a change to a SHARED helper, constant, base-class method or default value (in maze_dataset/utils.py, constants.py, token_utils.py, the dataset / tokenizer base classes, a __post_init__ or a property) that several features rely on, so that the code the property names looks untouched and only one particular caller, subclass, option or value range is affected",
     "arith": "for example an arithmetic / indexing / dtype / rounding / off-by-one slip that only shows at a particular size, coordinate, count or threshold value (not at the small round numbers the tests use)",
 }
 x = sys.argv[1]
-fl = FL[sys.argv[2] if len(sys.argv) > 2 else {"e": "history", "f": "input", "g": "arith", "h": "error", "i": "alias", "j": "refactor", "k": "free"}.get(x, "arith")]
+fl = FL[sys.argv[2] if len(sys.argv) > 2 else {"e": "history", "f": "input", "g": "arith", "h": "error", "i": "alias", "j": "refactor", "k": "free", "m": "helper"}.get(x, "arith")]
 Path("/tmp/seed-out/prompts").mkdir(parents=True, exist_ok=True)
 for l in open(Path(__file__).resolve().parent.parent / "properties.jsonl"):
     d = json.loads(l)
